@@ -374,9 +374,11 @@ pub fn main(args: &[String]) {
     { let mut rr = Rng::new(seed ^ 0xB7A4E); let n_hist = if n_random > 1000 { 600 } else { 80 };
       for h in 0..n_hist { let res = catch(|| -> Option<String> {
             let mut m = Module::default(); let t0 = m.types.add(&[], &[]);
+            // a LOCAL function exported as "keep": replace_exported_func re-points that export and must leave every function identifier alive
+            let mut all_funcs: Vec<FunctionId> = vec![]; let keep = { let mut b = FunctionBuilder::new(&mut m.types, &[], &[]); b.func_body().unreachable(); let f = b.finish(vec![], &mut m.funcs); f }; let keep_export = m.exports.add("keep", keep); all_funcs.push(keep); let mut kept = keep;
             let mods = ["env", "wasi", "x"]; let fields = ["log", "tick", "a"];
-            let mut imps: Vec<(ImportId, FunctionId, String, String, bool)> = vec![]; let mut exps: Vec<(ExportId, String, bool)> = vec![]; let mut log = vec![];
-            for step in 0..(4 + rr.usize(10)) { match rr.below(7) {
+            let mut imps: Vec<(ImportId, FunctionId, String, String, bool)> = vec![]; let mut exps: Vec<(ExportId, String, bool)> = vec![(keep_export, "keep".to_string(), true)]; let mut log = vec![];
+            for step in 0..(4 + rr.usize(10)) { match rr.below(8) {
                 0 | 1 => { let (md, fl) = (*rr.pick(&mods), *rr.pick(&fields)); let (f, i) = m.add_import_func(md, fl, t0); log.push(format!("import {}.{}", md, fl)); imps.push((i, f, md.to_string(), fl.to_string(), true)); }
                 2 => { if let Some(x) = imps.first() { let nm = *rr.pick(&fields); let f = x.1; let e = m.exports.add(nm, f); log.push(format!("export {}", nm)); exps.push((e, nm.to_string(), true)); } }
                 3 => { let (md, fl) = (*rr.pick(&mods), *rr.pick(&fields)); let want = imps.iter().position(|x| x.4 && x.2 == md && x.3 == fl);
@@ -393,7 +395,10 @@ pub fn main(args: &[String]) {
                            // a function can be the target of only one import entry here (each add_import_func creates its own function)
                            if m.replace_imported_func(f, |_| {}).is_err() { return Some(format!("history {} step {}: replace_imported_func refused a live imported function [{}]", h, step, log.join("; "))); }
                            imps[k].4 = false; } }
+                6 => { log.push(format!("replace_exported_func of function id {}", kept.index())); match m.replace_exported_func(kept, |_| {}) { Ok(n) => { all_funcs.push(n); kept = n; }, Err(e) => return Some(format!("history {} step {}: replace_exported_func refused a live exported local function: {} [{}]", h, step, e, log.join("; "))) } }
                 _ => {} }
+                // no function identifier ever handed out disappears (nothing here deletes a function)
+                { let live: Vec<FunctionId> = m.funcs.iter().map(|f| f.id()).collect(); if let Some(gone) = all_funcs.iter().find(|f| !live.contains(f)) { return Some(format!("history {} step {}: function id {} is no longer live although nothing deleted it [{}]", h, step, gone.index(), log.join("; "))); } }
                 // the by-name lookups resolve to the FIRST live entry with that name: exports.get_func, imports.get_func
                 { let nm = *rr.pick(&fields); let want = exps.iter().find(|x| x.2 && x.1 == nm).map(|_| imps[0].1); let got = m.exports.get_func(nm).ok();
                   if got != want { return Some(format!("history {} step {}: exports.get_func({}) = {:?}, expected {:?} [{}]", h, step, nm, got.map(|f| f.index()), want.map(|f| f.index()), log.join("; "))); }
